@@ -522,7 +522,7 @@ class ExecFull(ExecPlaces):
         return r
 
     def apply_spec(self, sf, args):
-        zs = [lift(self.to_sv(a), t) for a, t in zip(args, sf.arg_tys)]
+        zs = [lift(self.to_sv(a, t), t) for a, t in zip(args, sf.arg_tys)]
         if not sf.recursive:
             return self.expand_spec(sf, zs)
         app = sf.z(*[x.z for x in zs])
